@@ -81,9 +81,20 @@ pub fn check(case: &Case, rec: &mut Rec) -> Option<Failure> {
             };
         }
         // every indicator, every step of the stretch: finite …
+        let level_now = match op {
+            Op::Next(x) => x.abs(),
+            Op::Bar(b) => bar_mag(b),
+            _ => 0.0,
+        };
+        // the window is degenerate once it holds only stretch inputs (always, when there is no prefix)
+        let degenerate = k >= lb || mark == 0;
         for (q, v) in out.iter().enumerate() {
-            if !v.is_finite() {
-                return fail(case, "non-finite", format!("stretch step {} (t={}): output #{} = {} on a {} stretch", k, t, q, v, if zero_vol { "zero-volume" } else { "flat" }));
+            // (at levels below 1e-290 a window that is not yet degenerate may legitimately underflow: not C08's claim)
+            if !v.is_finite() && (degenerate || level_now >= 1e-290) {
+                // CCI on a flat window at a level below 1e-300: the rounding residue that defeats the exact
+                // `mad == 0.0` guard (known finding neutral-residue) is so small that `mad * 0.015` underflows to 0
+                let sym = if name == "CommodityChannelIndex" && !zero_vol && degenerate && level_now < 1e-300 { "non-finite-residue-underflow" } else { "non-finite" };
+                return fail(case, sym, format!("stretch step {} (t={}): output #{} = {} on a {} stretch", k, t, q, v, if zero_vol { "zero-volume" } else { "flat" }));
             }
         }
         // … and inside the documented range
@@ -189,6 +200,35 @@ pub fn generate(r: &mut Runner) {
             }
         }
     }
+    // extreme flat levels ("every flat price level"): subnormal, smallest normals, 1e-300, 1e-160 (squares underflow),
+    // 1e150 (squares just below overflow), with no prefix or a short prefix at the same scale
+    for name in ind::NAMES {
+        let (np, nm) = ind::arity(name).unwrap();
+        for p in [1usize, 2, 5, 14] {
+            if np == 0 && p > 1 {
+                break;
+            }
+            for (li, level) in [1e-310, 3e-308, 1e-300, 1e-160, 1e150].into_iter().enumerate() {
+                for with_prefix in [false, true] {
+                    let ps: Vec<usize> = (0..np).map(|j| if j == 0 { p } else { 1 + (p + j) % 5 }).collect();
+                    let ms: Vec<f64> = (0..nm).map(|_| 2.0).collect();
+                    let mut c = Case::new("C08", "flat-extreme-level", name, &ps, &ms);
+                    let plen = if with_prefix { 2 * p + 3 } else { 0 };
+                    let pre = gen::stream(&mut r.rng, "walk", plen, true, level);
+                    if ind::has_next_name(name) && li % 2 == 0 {
+                        c.ops = pre.into_iter().map(Op::Next).collect();
+                    } else {
+                        c.ops = gen::valid_bars(&mut r.rng, &pre).into_iter().map(Op::Bar).collect();
+                    }
+                    c.ops.push(Op::Mark);
+                    for _ in 0..(3 * p + 5) {
+                        c.ops.push(flat_op(name, level, 2.0));
+                    }
+                    r.run(c, with_prefix);
+                }
+            }
+        }
+    }
     // sampled larger periods
     let cases = if r.tier == Tier::Quick { 220 } else { 6600 };
     for i in 0..cases {
@@ -215,4 +255,4 @@ pub fn generate(r: &mut Runner) {
     }
 }
 
-pub const RULE: &str = "for all 22 indicators and periods 1..=8: six prefix variants (none, 1 input, n+1, 3n+7 inputs; walk/alt/spike regimes incl. ×10^6 spikes, scalars or valid bars) followed by a flat stretch of 3n+5 inputs (one variant: 1200 quick / 6000 thorough inputs, long enough for exponential averages to underflow) at levels {1, 0.1, 100, 12345.678, 1e6, 3.3e-3}, volumes incl. 0; plus zero-volume stretches with moving prices for MFI/OBV after prefixes with ×10^6 volumes; plus sampled periods to 128 after histories to 400 inputs. Every step of the stretch: outputs finite and inside the documented range; once the reference window is degenerate (n, or n+1 for ROC/ER/MFI, equal inputs): FastStochastic 50, CCI 0, ROC 0, TrueRange 0 exactly, MAD <= tau(t)·M, SD <= sqrt(tau(t))·M, Bollinger bands within sqrt(tau(t))·M of the average. Non-trivial = non-empty active prefix.";
+pub const RULE: &str = "for all 22 indicators and periods 1..=8: six prefix variants (none, 1 input, n+1, 3n+7 inputs; walk/alt/spike regimes incl. ×10^6 spikes, scalars or valid bars) followed by a flat stretch of 3n+5 inputs (one variant: 1200 quick / 6000 thorough inputs, long enough for exponential averages to underflow) at levels {1, 0.1, 100, 12345.678, 1e6, 3.3e-3}, volumes incl. 0; plus zero-volume stretches with moving prices for MFI/OBV after prefixes with ×10^6 volumes; plus flat stretches at the extreme levels {1e-310, 3e-308, 1e-300, 1e-160, 1e150} for periods 1, 2, 5, 14 with and without a prefix at the same scale; plus sampled periods to 128 after histories to 400 inputs. Every step of the stretch: outputs finite and inside the documented range; once the reference window is degenerate (n, or n+1 for ROC/ER/MFI, equal inputs): FastStochastic 50, CCI 0, ROC 0, TrueRange 0 exactly, MAD <= tau(t)·M, SD <= sqrt(tau(t))·M, Bollinger bands within sqrt(tau(t))·M of the average. Non-trivial = non-empty active prefix.";
